@@ -123,7 +123,7 @@ def run(ctx):
                 accs = rng.sample([["r", "w", "k"], ["r", "w"], ["m"], ["r"], ["w", "k"], ["m", "r"], ["r", "w", "l", "k"], ["l"], ["w"]], 4)
                 lst = []
                 for _k in range(rng.randint(4, 9)):
-                    r = {"kind": "file", "Comment": "", "Owner": False, "Target": "", "Path": rng.choice(paths), "Access": list(rng.choice(accs))}
+                    r = {"kind": "file", "Comment": "", "Owner": rng.random() < 0.3, "Target": "", "Path": rng.choice(paths), "Access": list(rng.choice(accs))}
                     r.update(q)
                     lst.append(r)
             else:
